@@ -53,3 +53,4 @@ def run(rep, tier, seed):
     lines2 = bwdcommon.gen(seed + 111, 250 if tier == "quick" else 8000, all_stmts=True)
     vlib.run_stream(rep, "bwd-intervals-all-statements", "bwditv", "fwditv", lines2, oracle=cfgprog.oracle_bwd,
                     nontrivial=cfgprog.nontrivial_bwd, key=lambda l: "program", extra_args=["--bwd"])
+    import C11_doms; C11_doms.streams(rep, tier, seed)
